@@ -1,4 +1,9 @@
-"""Registry: property -> Lean modules, theorems, stages."""
+"""Registry: property -> Lean modules, theorems (read from the theorem files), stages."""
+from __future__ import annotations
+
+import re
+from pathlib import Path
+
 import stage_disc
 import stage_doc
 import stage_e2e
@@ -6,43 +11,39 @@ import stage_gen
 import stage_names
 import stage_types
 
+LEAN = Path(__file__).resolve().parent.parent / "lean"
+
+
+def theorems_of(module: str, only: list[str] | None = None) -> list[str]:
+    """fully qualified names of the theorems stated in lean/<module path>.lean"""
+    path = LEAN / (module.replace(".", "/") + ".lean")
+    text = path.read_text() if path.exists() else ""
+    ns = re.search(r"^namespace\s+(\S+)", text, re.M)
+    prefix = ns.group(1) + "." if ns else ""
+    names = re.findall(r"^theorem\s+([A-Za-z_0-9'.]+)", text, re.M)
+    return [prefix + n for n in names if only is None or n in only]
+
+
+def spec(prop: str, stages, extra_modules=(), extra_theorems=(), only=None):
+    mods = [f"StubGen.Theorems.{prop}", *extra_modules]
+    thms = theorems_of(f"StubGen.Theorems.{prop}", only) + list(extra_theorems)
+    return {"modules": mods, "theorems": thms, "stages": stages}
+
+
+T = "StubGen.Theorems.Tables"
+
 PROPS = {
-    "C09": {
-        "modules": ["StubGen.Theorems.C09", "StubGen.Theorems.Tables"],
-        "theorems": ["StubGen.C09.convert_off", "StubGen.C09.convert_on_no_underscore", "StubGen.C09.convert_on_letters",
-                     "StubGen.C09.convert_on_legal", "StubGen.C09.convert_idempotent", "StubGen.C09.annotation_iff_differs",
-                     "StubGen.C09.recover_eq", "StubGen.C09.recover_flag_independent", "StubGen.C09.no_annotation_off",
-                     "StubGen.Tables.name_annotation_form"],
-        "stages": [stage_names.run, stage_gen.run],
-    },
-    "C13": {
-        "modules": ["StubGen.Theorems.C13"],
-        "theorems": ["StubGen.C13.valid_empty", "StubGen.C13.getCached_ok", "StubGen.C13.getCached_error",
-                     "StubGen.C13.getCached_total", "StubGen.C13.getCached_transparent",
-                     "StubGen.C13.getClassDocumentation_cache_irrelevant", "StubGen.C13.getFunctionDocumentation_cache_irrelevant",
-                     "StubGen.C13.getParameterDocumentation_cache_irrelevant", "StubGen.C13.getAttributeDocumentation_cache_irrelevant",
-                     "StubGen.C13.getResultDocumentation_cache_irrelevant", "StubGen.C13.queries_eq_cacheless_spec",
-                     "StubGen.C13.cache_transparent", "StubGen.C13.runAll_eq_spec", "StubGen.C13.answer_independent_of_history",
-                     "StubGen.C13.order_irrelevant", "StubGen.C13.descriptionPart_lines", "StubGen.C13.descriptionPart_line_for_line",
-                     "StubGen.C13.sdsDocstringDescription_form", "StubGen.C13.sdsDocstring_blocks", "StubGen.C13.sdsDocstring_empty_iff",
-                     "StubGen.C13.resultDocLines_spec", "StubGen.C13.exampleText_lines", "StubGen.C13.attached_to_own_element",
-                     "StubGen.C13.attached_to_own_class", "StubGen.C13.attached_to_own_attribute"],
-        "stages": [stage_doc.run, stage_gen.run, stage_e2e.run],
-    },
-    "C15": {
-        "modules": ["StubGen.Theorems.C15", "StubGen.Theorems.Tables"],
-        "theorems": ["StubGen.C15.filter_spec", "StubGen.C15.flag_on_keeps_all", "StubGen.C15.flag_off_excludes",
-                     "StubGen.C15.flag_irrelevant_outside", "StubGen.C15.flag_only_removes", "StubGen.C15.no_files_error",
-                     "StubGen.C15.analysed_subset", "StubGen.C15.packages_first", "StubGen.Tables.excluded_dirs"],
-        "stages": [stage_disc.run],
-    },
-    "C19": {
-        "modules": ["StubGen.Theorems.C19", "StubGen.Theorems.Tables"],
-        "theorems": ["StubGen.C19.roundtrip", "StubGen.C19.roundtrip_eq", "StubGen.C19.todict_stable",
-                     "StubGen.C19.eq_refl", "StubGen.C19.eq_symm", "StubGen.C19.eq_trans", "StubGen.C19.eq_hash",
-                     "StubGen.C19.perm_namedSeq", "StubGen.C19.perm_union", "StubGen.C19.perm_list",
-                     "StubGen.C19.perm_set", "StubGen.C19.perm_tuple", "StubGen.C19.perm_callable",
-                     "StubGen.C19.perm_literal", "StubGen.Tables.type_kinds"],
-        "stages": [stage_types.run],
-    },
+    "C02": spec("C02", [stage_names.run, stage_gen.run, stage_e2e.run], [T],
+                ["StubGen.Tables.keywords_escaped", "StubGen.Tables.escape_table_exact"]),
+    "C05": spec("C05", [stage_gen.run, stage_e2e.run], [T], ["StubGen.Tables.builtin_names"]),
+    "C06": spec("C06", [stage_gen.run, stage_e2e.run]),
+    "C07": spec("C07", [stage_gen.run, stage_e2e.run]),
+    "C09": spec("C09", [stage_names.run, stage_gen.run], [T], ["StubGen.Tables.name_annotation_form"]),
+    "C10": spec("C10", [stage_gen.run, stage_e2e.run]),
+    "C13": spec("C13", [stage_doc.run, stage_gen.run, stage_e2e.run]),
+    "C15": spec("C15", [stage_disc.run], [T], ["StubGen.Tables.excluded_dirs"]),
+    "C16": spec("C16", [stage_gen.run]),
+    "C19": spec("C19", [stage_types.run], [T], ["StubGen.Tables.type_kinds"]),
+    "C20": spec("C20", [stage_gen.run, stage_e2e.run], [T],
+                ["StubGen.Tables.todo_keys", "StubGen.Tables.todo_messages_distinct"]),
 }
